@@ -37,6 +37,9 @@ def full(case, s):
     u = case["u"]
     du = case.get("du", u)
     assert u % 1000 == 0
+    if case.get("same"):
+        # every event of both lists carries the same data: events cannot be told apart by their payload
+        return [[e[2] if len(e) > 2 else None, e[0] * u, e[1] * du, '{"x":1}'] for e in case["l1" if s == 1 else "l2"]]
     return [[e[2] if len(e) > 2 else None, e[0] * u, e[1] * du, label(s, i)]
             for i, e in enumerate(case["l1" if s == 1 else "l2"])]
 
@@ -244,6 +247,8 @@ class C15(Prop):
             if rng.random() < 0.2:
                 c["tz"] = [rng.choice([0, 60, -330, 765]), rng.choice([0, -480, 345])]
             out.append(("random", c))
+            if rng.random() < 0.25:
+                out.append(("random-same-data", {**c, "same": True}))
         for _ in range(ctx.pick(300, 10000)):
             # one event spanning many, either way round
             k = rng.randint(2, 20)
@@ -322,7 +327,7 @@ class C15(Prop):
             tag = t.tok()
             e = t.ev()
             out.append(e)
-            if origin(e[3]) != (1 if tag == "1" else 2):
+            if not case.get("same") and origin(e[3]) != (1 if tag == "1" else 2):
                 tags_ok = False
         assert t.done()
         r = {"out": out, "inputs_same": True}
@@ -338,6 +343,31 @@ class C15(Prop):
             return "the input lists or their events were modified"
         L1, L2, in_scope, _ = facts(case)
         o = out["out"]
+        if case.get("same"):
+            # equal data everywhere: origins cannot be read off, so the statement is checked on intervals:
+            # every list-one event is returned, nothing overlaps, the covered time is the union of the inputs
+            rest = [[e[1], e[2]] for e in o]
+            for e in L1:
+                if [e[1], e[2]] not in rest:
+                    return f"list-one event [{e[1]},{e[1] + e[2]}) is not among the returned events"
+                rest.remove([e[1], e[2]])
+            if not in_scope:
+                return None
+            if any(e[2] < 0 for e in o):
+                return "output event with negative duration"
+            so = sorted([e[1], e[1] + e[2]] for e in o)
+            for p_, q_ in zip(so, so[1:]):
+                if p_[1] > q_[0]:
+                    return f"two returned events overlap: {p_} {q_}"
+            cin = norm([[e[1], e[1] + e[2]] for e in L1 + L2])
+            cout = norm([[e[1], e[1] + e[2]] for e in o])
+            if cin != cout:
+                return f"covered time {cout} is not the union of the inputs {cin}"
+            cover1 = norm([[e[1], e[1] + e[2]] for e in L1])
+            for x, d in rest:
+                if d > 0 and minus(x, x + d, cover1) != [[x, x + d]]:
+                    return f"returned list-two piece [{x},{x + d}) lies (partly) inside list one"
+            return None
         lab1 = {e[3] for e in L1}
         lab2 = {e[3]: e for e in L2}
         o1 = [e for e in o if e[3] in lab1]
